@@ -331,7 +331,10 @@ def while_loop(eng, s, st, fr, k):
         fr_body = fr.with_(brk=lambda s2: k(s2), cont=body_end)
         eng.ex(s.body, body_st, fr_body, body_end)
         # exit
-        return eng.ex(s.orelse, s1.assume(z3.Not(c)), fr, k)
+        s_exit = s1.assume(z3.Not(c))
+        if getattr(spec, "on_exit", None):
+            s_exit = spec.on_exit(eng, s_exit)
+        return eng.ex(s.orelse, s_exit, fr, k)
     return eng.ev(s.test, sh, fr, after_test)
 
 
@@ -468,6 +471,8 @@ def cut_loop(eng, s, it, st, fr, k):
     for _, f in _norm(_inv(eng, spec, se, fr, {"k_": n, "n_": n})):
         se = se.assume(eng.S.b(f))
     se = se.assume(n >= 0)
+    if getattr(spec, "on_exit", None):
+        se = spec.on_exit(eng, se)
     return eng.ex(s.orelse, se, fr, k)
 
 
